@@ -7,3 +7,4 @@ INVARIANT C17_NoHang
 INVARIANT KF_C17
 INVARIANT C17_Settings
 INVARIANT C17_Columns
+INVARIANT C17_HostsLimit
